@@ -215,6 +215,58 @@ package server
 //@   frame-by-effects
 //@   ensures [within-radius] forall(k, 0, len(nearbys), roamOK(fence, obj, nearbys[k]))
 //@   loop 1 invariant forall(k, 0, len(nearbys), roamOK(fence, obj, nearbys[k]))
+//@   ensures [model.allocated] forall(k, 0, len(nearbys), allocated(refof(nearbys[k])))
+//@   loop 1 invariant [model.allocated] forall(k, 0, len(nearbys), allocated(refof(nearbys[k])))
+
+// Roaming fence, old-vs-new neighbour sets (C20). oldN0/newN0 are the two neighbour lists as fenceMatchNearbys returned
+// them; elements of []roamMatch are struct references in the model, `.id/.obj/.meters` their fields.
+//@ ghost scratch oldN0 []ref
+//@ ghost scratch newN0 []ref
+//@ ghost macro rmId(x) = astype(x, "server.roamMatch").id
+//@ ghost macro rmSorted(m) = forall(a, 0, len(m), forall(b, a + 1, len(m), m[a].meters < m[b].meters || (m[a].meters == m[b].meters && m[a].id <= m[b].id)))
+//@ ghost func sortFrom(s []ref, k int) int
+//@ ghost func sortTo(s []ref, q int) int
+//@ func sortRoamMatches
+//@   assumed
+//@   mutates matches
+//@   modifies nothing
+//@   ensures [perm] len(matches) == len(old(matches)) && forall(k, 0, len(matches), 0 <= sortFrom(matches, k) && sortFrom(matches, k) < len(matches) && refof(matches[k]) == refof(old(matches)[sortFrom(matches, k)])) && forall(q, 0, len(matches), 0 <= sortTo(matches, q) && sortTo(matches, q) < len(matches) && refof(matches[sortTo(matches, q)]) == refof(old(matches)[q]))
+//@   ensures [sorted] rmSorted(matches)
+//@ ghost macro rmObj(x) = astype(x, "server.roamMatch").obj
+//@ ghost macro rmInG(S, id, o) = exists(q, 0, len(S), rmId(S[q]) == id && rmObj(S[q]) == o)
+//@ ghost macro rmInL(S, id, o) = exists(q, 0, len(S), S[q].id == id && S[q].obj == o)
+//@ func fenceMatchRoam
+//@   forward-seq
+//@   no-merge
+//@   frame-by-effects
+//@   entry-assume s != nil && s.cols != nil && obj != nil
+//@   requires fence != nil
+//@   modifies steps
+//@   set-after-call fenceMatchNearbys#1 oldN0 = result
+//@   set-after-call fenceMatchNearbys#2 newN0 = result
+//@   loop 1 invariant [range] 0 <= i && i <= len(oldNearbys)
+//@   loop 1 invariant [new-kept] !fence.nodwell ==> newNearbys == newN0
+//@   loop 1 invariant [model.allocated] forall(k, 0, len(oldNearbys), allocated(refof(oldNearbys[k]))) && forall(k, 0, len(newNearbys), allocated(refof(newNearbys[k]))) && forall(k, 0, len(oldN0), allocated(oldN0[k])) && forall(k, 0, len(newN0), allocated(newN0[k]))
+//@   loop 1 invariant [new-sub] forall(j, 0, len(newNearbys), allocated(refof(newNearbys[j])) ==> rmInG(newN0, newNearbys[j].id, newNearbys[j].obj))
+//@   loop 1 invariant [far-sound] forall(k, 0, i, forall(j, 0, len(newNearbys), newNearbys[j].id != oldNearbys[k].id))
+//@   loop 1 invariant [far-from-old] forall(k, 0, len(oldNearbys), allocated(refof(oldNearbys[k])) ==> rmInG(oldN0, oldNearbys[k].id, oldNearbys[k].obj))
+//@   loop 1 invariant [far-complete] forall(m, 0, len(oldN0), allocated(oldN0[m]) && forall(j, 0, len(newN0), rmId(newN0[j]) != rmId(oldN0[m])) ==> rmInL(oldNearbys, rmId(oldN0[m]), rmObj(oldN0[m])))
+//@   loop 1 invariant [near-complete] forall(m, 0, len(newN0), allocated(newN0[m]) && forall(k, 0, len(oldN0), rmId(oldN0[k]) != rmId(newN0[m])) ==> rmInL(newNearbys, rmId(newN0[m]), rmObj(newN0[m])))
+//@   loop 2 invariant 0 <= j && j <= len(newNearbys) && !match && forall(q, 0, j, newNearbys[q].id != oldNearbys[i].id)
+//@   loop 3 invariant [range] 0 <= i && i <= len(faraways)
+//@   loop 3 invariant [same] faraways == oldNearbys && nearbys == newNearbys
+//@   loop 3 invariant [model.allocated] forall(k, 0, len(oldNearbys), allocated(refof(oldNearbys[k]))) && forall(k, 0, len(newNearbys), allocated(refof(newNearbys[k]))) && forall(k, 0, len(oldN0), allocated(oldN0[k])) && forall(k, 0, len(newN0), allocated(newN0[k]))
+//@   loop 3 invariant [metres] forall(k, 0, i, faraways[k].meters == gDistance(faraways[k].obj, objGeo(obj)))
+//@   at-return [far.from-old] forall(k, 0, len(faraways), allocated(refof(faraways[k])) ==> rmInG(oldN0, faraways[k].id, faraways[k].obj))
+//@   at-return [far.not-near] forall(k, 0, len(faraways), forall(j, 0, len(nearbys), nearbys[j].id != faraways[k].id))
+//@   at-return [far.complete] forall(m, 0, len(oldN0), allocated(oldN0[m]) && forall(j, 0, len(newN0), rmId(newN0[j]) != rmId(oldN0[m])) ==> rmInL(faraways, rmId(oldN0[m]), rmObj(oldN0[m])))
+//@   at-return [far.dwell-exact] !fence.nodwell ==> forall(k, 0, len(faraways), forall(j, 0, len(newN0), rmId(newN0[j]) != faraways[k].id))
+//@   at-return [far.metres] forall(k, 0, len(faraways), faraways[k].meters == gDistance(faraways[k].obj, objGeo(obj)))
+//@   at-return [near.dwell-all] !fence.nodwell ==> len(nearbys) == len(newN0) && forall(m, 0, len(newN0), allocated(newN0[m]) ==> rmInL(nearbys, rmId(newN0[m]), rmObj(newN0[m])))
+//@   at-return [near.from-new] forall(j, 0, len(nearbys), allocated(refof(nearbys[j])) ==> rmInG(newN0, nearbys[j].id, nearbys[j].obj))
+//@   at-return [near.complete] forall(m, 0, len(newN0), allocated(newN0[m]) && forall(k, 0, len(oldN0), rmId(oldN0[k]) != rmId(newN0[m])) ==> rmInL(nearbys, rmId(newN0[m]), rmObj(newN0[m])))
+//@   at-return [sorted] rmSorted(nearbys) && rmSorted(faraways)
+//@   at-return [model.allocated] forall(k, 0, len(faraways), allocated(refof(faraways[k]))) && forall(k, 0, len(nearbys), allocated(refof(nearbys[k])))
 
 // ---- request parsing layer: no input can make it panic (C16) ---------------------
 //@ func readcrlfline
